@@ -582,4 +582,25 @@ def r26v(F):
     return r
 
 
-RULES = [r25, r25p, r26, r26c, r26v, r27, r27n, r68]
+def r26l(F):
+    r = RuleResult("R26l", "import links are followed under one spelling per file",
+                   "FileBuilder::link_ops, which loads every file a build will import before it runs, folds each link with "
+                   "path::normalize before it tests its visited set and before it loads the file: the links of a file are its import "
+                   "paths joined onto its directory, so `../b/y.ucg` from a/ and `../a/x.ucg` from b/ grow by two segments per hop and "
+                   "never repeat unless they are folded", floor=3)
+    fn = F.fn("ucglib::build::FileBuilder::link_ops")
+    o = Origins(fn)
+    sites = [(b, t, "visited-test") for b, t in fn.calls() if callee(t).endswith("BTreeSet::contains")] + \
+            [(b, t, "visited-insert") for b, t in fn.calls() if callee(t).endswith("BTreeSet::insert")] + \
+            [(b, t, "load") for b, t in fn.calls() if callee(t).endswith("Environment::get_ops_for_path")]
+    need(len(sites) >= 3, "link_ops: visited set / load not found")
+    for b, t, what in sites:
+        labs = o.at(t["args"][1], b)
+        ok = "ucglib::path::normalize" in calls_in(labs)
+        r.inst("link_ops:%s" % what, fn.where(b), ok, "on the folded path" if ok else
+               "link_ops uses the link as it was written for its %s: sibling directories importing each other with `../` end in "
+               "\"File name too long\" even without an evaluation cycle" % what)
+    return r
+
+
+RULES = [r25, r25p, r26, r26c, r26l, r26v, r27, r27n, r68]
